@@ -352,7 +352,58 @@ func (c *Cond) Broadcast() {
 // ---- passthroughs ----
 
 type Map = sync.Map
-type Pool = sync.Pool
+
+// Pool models sync.Pool: Get and Put are scheduling points; Get yields any
+// object that was Put earlier (every choice is explored) or a new one.
+// Package-level pools survive executions, so the content is kept per world.
+type Pool struct {
+	New func() any
+
+	r     reg
+	w     *vrt.World
+	items []any
+}
+
+type poolObj struct{ p *Pool }
+
+//go:norace
+func (o poolObj) KeyHash() uint64 { return vrt.Mix(o.p.r.id, uint64(len(o.p.items))) }
+
+//go:norace
+func (p *Pool) attach() {
+	if p.w != vrt.W {
+		p.w, p.items, p.r.id = vrt.W, nil, 0
+	}
+	if p.r.id == 0 {
+		p.r.id = vrt.RegisterObj(poolObj{p})
+	}
+}
+
+//go:norace
+func (p *Pool) Get() any {
+	p.attach()
+	vrt.Yield()
+	k := vrt.Choose(len(p.items) + 1)
+	if k == len(p.items) {
+		if p.New != nil {
+			return p.New()
+		}
+		return nil
+	}
+	x := p.items[k]
+	p.items = append(p.items[:k:k], p.items[k+1:]...)
+	return x
+}
+
+//go:norace
+func (p *Pool) Put(x any) {
+	p.attach()
+	vrt.Yield()
+	if x == nil {
+		return
+	}
+	p.items = append(p.items, x)
+}
 
 //go:norace
 func OnceFunc(f func()) func() {
